@@ -14,7 +14,7 @@ use verif_harness::util::*;
 #[derive(Deserialize, Serialize, Clone, Debug)]
 struct NChild { bd: Vec<u32>, id: usize, args: Vec<u32> }
 #[derive(Deserialize, Serialize, Clone, Debug)]
-struct Node { op: String, sl: Vec<u32>, ch: Vec<NChild> }
+struct Node { op: String, sl: Vec<u32>, ch: Vec<NChild>, #[serde(default)] ps: Vec<u32> }
 #[derive(Deserialize)]
 struct Input { names: Vec<u32>, nodes: Vec<Node> }
 
@@ -28,6 +28,7 @@ fn build(n: &Node, nm: &Naming) -> T {
         let m: SlotMap = c.args.iter().enumerate().map(|(j, a)| (param(j), nm.slot(*a))).collect();
         elems.push(SyntaxElem::AppliedId(AppliedId::new(Id(c.id), m)));
     }
+    for x in &n.ps { elems.push(SyntaxElem::Slot(nm.slot(*x))); }
     T::from_syntax(&elems).expect("from_syntax")
 }
 
@@ -60,7 +61,11 @@ fn abstract_node(l: &T, like: &Node, nm: &Naming) -> Node {
             ch.push(NChild { bd, id: a.id.0, args });
         }
     }
-    Node { op, sl, ch }
+    let mut ps = Vec::new();
+    for _ in 0..like.ps.len() {
+        if let Some(SyntaxElem::Slot(s)) = it.next() { ps.push(nameof(s, nm, &mut extra)); }
+    }
+    Node { op, sl, ch, ps }
 }
 
 fn main() {
@@ -69,10 +74,13 @@ fn main() {
     let mut out = std::io::BufWriter::new(std::fs::File::create(&args[2]).unwrap());
     install_hook();
     let maxn = *input.names.iter().max().unwrap();
-    let nm = Naming::new("txt-fwd", maxn + 4);
     let nm2 = Naming::new("txt-rev", maxn + 4);
     let mut panics = 0;
-    for (i, n) in input.nodes.iter().enumerate() {
+    // every node under textual names and under the numeric names $0.. that shapes themselves use
+    for (pass, kind) in ["txt-fwd", "num0"].iter().enumerate() {
+    let nm = Naming::new(kind, maxn + 4);
+    for (i0, n) in input.nodes.iter().enumerate() {
+        let i = pass * input.nodes.len() + i0;
         let r = guard(|| {
             let l = build(n, &nm);
             let mut ex = BTreeMap::new();
@@ -91,12 +99,18 @@ fn main() {
             let mut slots: Vec<u32> = l.slots().iter().map(|s| nameof(*s, &nm, &mut ex)).collect();
             slots.sort();
             let (sh, bij) = l.weak_shape();
-            let back = sh.apply_slotmap(&bij);
+            // Language::apply_slotmap has a documented precondition (asserted in the checks build): the target slots
+            // must not collide with the node's private slots.  Under the numeric names $0.. a free slot of the node
+            // can be named like a binder of the shape; then the shape's binders are refreshed first.
+            let prv: Vec<Slot> = sh.private_slot_occurrences();
+            let collide = bij.iter().any(|(_, v)| prv.contains(&v));
+            let back = if collide { sh.refresh_private().apply_slotmap(&bij) } else { sh.apply_slotmap(&bij) };
             let (sh2, _) = sh.weak_shape();
             // the same node under another naming and with names rotated: shape must not change
             let rot = |k: u32| (k % maxn) + 1;
             let n_rot = Node { op: n.op.clone(), sl: n.sl.iter().map(|x| rot(*x)).collect(),
-                ch: n.ch.iter().map(|c| NChild { bd: c.bd.iter().map(|x| rot(*x)).collect(), id: c.id, args: c.args.iter().map(|x| rot(*x)).collect() }).collect() };
+                ch: n.ch.iter().map(|c| NChild { bd: c.bd.iter().map(|x| rot(*x)).collect(), id: c.id, args: c.args.iter().map(|x| rot(*x)).collect() }).collect(),
+                ps: n.ps.iter().map(|x| rot(*x)).collect() };
             let (sh_rot, _) = build(&n_rot, &nm2).weak_shape();
             let syn_ok = T::from_syntax(&l.to_syntax()).map(|x| x == l).unwrap_or(false);
             let mut bijp: Vec<(u32, u32)> = bij.iter().map(|(k, v)| (nameof(k, &nm, &mut ex), nameof(v, &nm, &mut ex))).collect();
@@ -113,5 +127,6 @@ fn main() {
             Err(p) => { panics += 1; writeln!(out, "{}", json!({"i": i, "node": n, "panic": true, "msg": p.msg, "site": p.site})).unwrap(); }
         }
     }
-    println!("{}", json!({"kind":"summary","nodes":input.nodes.len(),"panics":panics}));
+    }
+    println!("{}", json!({"kind":"summary","nodes":2 * input.nodes.len(),"panics":panics}));
 }
